@@ -497,3 +497,163 @@ func describe(v reflect.Value, depth int) string {
 	}
 	return fmt.Sprintf("%v", v)
 }
+
+// Perturb returns a deep copy of v in which one leaf is changed minimally (an integer by +-1, a float to the next
+// representable value, a string by one character, a bool flipped; the leaf is chosen by seed). Structure, lengths and
+// nil-ness are kept. ok=false when v has no perturbable leaf.
+func Perturb(v reflect.Value, seed uint64) (out reflect.Value, ok bool) {
+	out = deepCopy(v, map[uintptr]reflect.Value{})
+	leaves := collectLeaves(out, nil, 0, map[uintptr]bool{})
+	if len(leaves) == 0 {
+		return out, false
+	}
+	l := leaves[int(seed%uint64(len(leaves)))]
+	up := (seed>>8)%2 == 0
+	switch l.Kind() {
+	case reflect.Bool:
+		l.SetBool(!l.Bool())
+	case reflect.Int, reflect.Int8, reflect.Int16, reflect.Int32, reflect.Int64:
+		x := l.Int()
+		if up {
+			x++
+		} else {
+			x--
+		}
+		l.SetInt(truncInt(x, l.Type().Bits()))
+	case reflect.Uint, reflect.Uint8, reflect.Uint16, reflect.Uint32, reflect.Uint64, reflect.Uintptr:
+		x := l.Uint()
+		if up {
+			x++
+		} else {
+			x--
+		}
+		if b := l.Type().Bits(); b < 64 {
+			x &= (1 << uint(b)) - 1
+		}
+		l.SetUint(x)
+	case reflect.Float32:
+		f := float32(l.Float())
+		if f != f {
+			f = 0
+		}
+		dir := float32(math.Inf(1))
+		if !up {
+			dir = float32(math.Inf(-1))
+		}
+		l.SetFloat(float64(math.Nextafter32(f, dir)))
+	case reflect.Float64:
+		f := l.Float()
+		if f != f {
+			f = 0
+		}
+		dir := math.Inf(1)
+		if !up {
+			dir = math.Inf(-1)
+		}
+		l.SetFloat(math.Nextafter(f, dir))
+	case reflect.String:
+		s := l.String()
+		switch {
+		case s == "":
+			l.SetString("a")
+		case up:
+			l.SetString(s + " ")
+		default:
+			b := []byte(s)
+			b[len(b)-1] ^= 1
+			l.SetString(string(b))
+		}
+	}
+	return out, true
+}
+
+func deepCopy(v reflect.Value, seen map[uintptr]reflect.Value) reflect.Value {
+	out := reflect.New(v.Type()).Elem()
+	switch v.Kind() {
+	case reflect.Ptr:
+		if !v.IsNil() {
+			if c, ok := seen[v.Pointer()]; ok && c.Type() == v.Type() {
+				out.Set(c) // cyclic structures keep their shape
+				break
+			}
+			p := reflect.New(v.Type().Elem())
+			seen[v.Pointer()] = p
+			p.Elem().Set(deepCopy(v.Elem(), seen))
+			out.Set(p)
+		}
+	case reflect.Slice:
+		if !v.IsNil() {
+			s := reflect.MakeSlice(v.Type(), v.Len(), v.Cap())
+			for i := 0; i < v.Len(); i++ {
+				s.Index(i).Set(deepCopy(v.Index(i), seen))
+			}
+			out.Set(s)
+		}
+	case reflect.Array:
+		for i := 0; i < v.Len(); i++ {
+			out.Index(i).Set(deepCopy(v.Index(i), seen))
+		}
+	case reflect.Map:
+		if !v.IsNil() {
+			m := reflect.MakeMap(v.Type())
+			it := v.MapRange()
+			for it.Next() {
+				m.SetMapIndex(it.Key(), deepCopy(it.Value(), seen))
+			}
+			out.Set(m)
+		}
+	case reflect.Struct:
+		for i := 0; i < v.NumField(); i++ {
+			src, dst := v.Field(i), out.Field(i)
+			if !dst.CanSet() {
+				src = reflect.NewAt(src.Type(), unsafe.Pointer(v.Field(i).UnsafeAddr())).Elem()
+				dst = reflect.NewAt(dst.Type(), unsafe.Pointer(dst.UnsafeAddr())).Elem()
+			}
+			dst.Set(deepCopy(src, seen))
+		}
+	case reflect.Interface:
+		if !v.IsNil() {
+			out.Set(deepCopy(v.Elem(), seen))
+		}
+	default:
+		out.Set(v)
+	}
+	return out
+}
+
+func collectLeaves(v reflect.Value, acc []reflect.Value, depth int, seen map[uintptr]bool) []reflect.Value {
+	if depth > 5 {
+		return acc
+	}
+	if v.Kind() == reflect.Ptr && !v.IsNil() {
+		if seen[v.Pointer()] {
+			return acc
+		}
+		seen[v.Pointer()] = true
+	}
+	switch v.Kind() {
+	case reflect.Bool, reflect.String, reflect.Float32, reflect.Float64,
+		reflect.Int, reflect.Int8, reflect.Int16, reflect.Int32, reflect.Int64,
+		reflect.Uint, reflect.Uint8, reflect.Uint16, reflect.Uint32, reflect.Uint64, reflect.Uintptr:
+		if v.CanSet() {
+			acc = append(acc, v)
+		}
+	case reflect.Ptr:
+		if !v.IsNil() {
+			acc = collectLeaves(v.Elem(), acc, depth+1, seen)
+		}
+	case reflect.Slice, reflect.Array:
+		for i := 0; i < v.Len(); i++ {
+			acc = collectLeaves(v.Index(i), acc, depth+1, seen)
+		}
+	case reflect.Struct:
+		for i := 0; i < v.NumField(); i++ {
+			f := v.Field(i)
+			if !f.CanSet() && f.CanAddr() {
+				f = reflect.NewAt(f.Type(), unsafe.Pointer(f.UnsafeAddr())).Elem()
+			}
+			acc = collectLeaves(f, acc, depth+1, seen)
+		}
+	}
+	return acc
+}
